@@ -92,6 +92,7 @@ type caseT struct {
 	mgOut        int               // functions outside the fragment
 	declProblems []string          // order profile: problems with the sequence of definitions
 	decls        []string          // names of the top-level Go declarations (catalogue)
+	nondet       bool              // conc: the Go result may depend on the schedule
 }
 
 var defRe = regexp.MustCompile(`(?m)^Definition ([A-Za-z0-9_']+)`)
@@ -105,6 +106,8 @@ func main() {
 	coqroot := flag.String("coq", "/verif/coq", "Coq development (theories, shim)")
 	profile := flag.String("profile", "default", "generator profile: default | core | noshadow | core-noshadow | incdec32 | catalogue")
 	only := flag.String("only", "", "catalogue: only the items whose id contains this")
+	repsFlag := flag.Int("reps", 200, "conc: native repetitions of every call")
+	noRace := flag.Bool("norace", false, "conc: run the native side without the race detector")
 	keep := flag.String("keep", "", "keep the scratch module in this directory")
 	verbose := flag.Bool("v", false, "print every call")
 	par := flag.Int("j", 4, "parallel coqc runs")
@@ -169,22 +172,28 @@ func main() {
 
 	master := rng.New(*seed)
 	var cases []*caseT
-	catalogue := *profile == "catalogue"
+	conc := *profile == "conc"
+	catalogue := *profile == "catalogue" || conc
 	if catalogue {
-		cases = catalogueCases(mod, *only)
+		cases = catalogueCases(mod, *only, conc)
 		*n = 0
 	}
 	lenient := catalogue || *profile == "inject" || *profile == "minigo-neg" // declarations may be rejected
 	minigo := *profile == "minigo" || *profile == "minigo-neg"
 	var runner strings.Builder
-	runner.WriteString("package main\n\nimport (\n\t\"fmt\"\n")
+	runner.WriteString("package main\n\nimport (\n\t\"fmt\"\n\t\"sort\"\n\t\"strings\"\n")
 	for c := 0; c < *n; c++ {
 		fmt.Fprintf(&runner, "\tp%03d \"gen/g/p%03d\"\n", c, c)
 	}
 	for _, c := range cases {
 		fmt.Fprintf(&runner, "\t%s \"gen/%s\"\n", c.name, c.dir)
 	}
-	runner.WriteString(")\n\nfunc call(id string, f func() string) {\n\tdefer func() {\n\t\tif r := recover(); r != nil {\n\t\t\tfmt.Printf(\"R %s panic\\n\", id)\n\t\t}\n\t}()\n\tfmt.Printf(\"R %s %s\\n\", id, f())\n}\n\nfunc main() {\n")
+	reps := 1
+	if conc {
+		reps = *repsFlag
+	}
+	runner.WriteString(")\n\nfunc once(f func() string) (res string) {\n\tdefer func() {\n\t\tif r := recover(); r != nil {\n\t\t\tres = \"panic\"\n\t\t}\n\t}()\n\treturn f()\n}\n\n")
+	fmt.Fprintf(&runner, "func call(id string, f func() string) {\n\tseen := map[string]bool{}\n\tvar order []string\n\tfor i := 0; i < %d; i++ {\n\t\tr := once(f)\n\t\tif !seen[r] {\n\t\t\tseen[r] = true\n\t\t\torder = append(order, r)\n\t\t}\n\t}\n\tsort.Strings(order)\n\tfmt.Printf(\"R %%s %%s\\n\", id, strings.Join(order, \"|\"))\n}\n\nfunc main() {\n", reps)
 	for c := 0; c < *n; c++ {
 		r := master.Fork()
 		name := fmt.Sprintf("p%03d", c)
@@ -242,6 +251,9 @@ func main() {
 
 	// native run
 	cmd := exec.Command("go", "run", "./run")
+	if conc && !*noRace {
+		cmd = exec.Command("go", "run", "-race", "./run")
+	}
 	cmd.Dir = mod
 	cmd.Env = goEnv()
 	var nerr bytes.Buffer
@@ -273,6 +285,7 @@ func main() {
 	if catalogue {
 		pat = "./c/..."
 	}
+	_ = conc
 	if *profile == "lexical" {
 		// the baseline packages, and the commented ones under each flag
 		for _, v := range [][]string{{"out", "./b/..."}, {"outT", "-typecheck", "./g/..."}, {"outS", "-source-comments", "./g/..."}, {"outK", "-skip-interfaces", "./g/..."}, {"outA", "-typecheck", "-source-comments", "-skip-interfaces", "./g/..."}} {
@@ -351,7 +364,7 @@ func main() {
 				return
 			}
 			var ev strings.Builder
-			ev.WriteString("From Coq Require Import ZArith String.\nFrom GV Require Import Lang.GlSyntax Lang.GlSem Lang.Show.\nSet Printing Width 100000.\n")
+			ev.WriteString("From Coq Require Import ZArith String.\nFrom GV Require Import Lang.GlSyntax Lang.GlSem Lang.GlConc Lang.Show.\nSet Printing Width 100000.\n")
 			fmt.Fprintf(&ev, "From Goose Require Import gen.%s.\n", strings.ReplaceAll(c.dir, "/", "."))
 			for i, cl := range c.pkg.Calls {
 				if !c.defs[cl.Fn] {
@@ -361,7 +374,11 @@ func main() {
 				for j, a := range cl.Args {
 					e = fmt.Sprintf("(App %s (Val %s))", e, coqArg(cl.ArgT[j], a))
 				}
-				fmt.Fprintf(&ev, "Eval vm_compute in (%d%%nat, show_res (run 60000%%nat %s)).\n", i, e)
+				if conc {
+					fmt.Fprintf(&ev, "Eval vm_compute in (%d%%nat, show_outcomes (run_conc 400%%nat 20000%%nat %s)).\n", i, e)
+				} else {
+					fmt.Fprintf(&ev, "Eval vm_compute in (%d%%nat, show_res (run 60000%%nat %s)).\n", i, e)
+				}
 			}
 			evf := filepath.Join(out, "ev_"+c.name+".v")
 			os.WriteFile(evf, []byte(ev.String()), 0o644)
@@ -447,6 +464,9 @@ func main() {
 					panics++
 				}
 				okk := nat == mod || (nat == "panic" && strings.HasPrefix(mod, "stuck"))
+				if conc {
+					okk = concAgree(nat, mod, c.nondet)
+				}
 				if *verbose || !okk {
 					fmt.Fprintf(w, "C %d %s %v native=%s gooselang=%s\n", i, cl.Fn, cl.Args, nat, mod)
 				}
@@ -668,4 +688,28 @@ func firstN(s string, n int) string {
 		return s[:n]
 	}
 	return s
+}
+
+// concAgree: every result Go produced is an outcome of the model; the model
+// has no deadlock, stuck or unfinished schedule; and when Go always produced
+// one result, the model's outcomes are exactly that result.
+func concAgree(nat, mod string, nondet bool) bool {
+	ms := strings.Split(mod, "|")
+	model := map[string]bool{}
+	for _, m := range ms {
+		if m == "deadlock" || m == "fuel" || strings.HasPrefix(m, "stuck") || m == "" {
+			return false
+		}
+		model[strings.TrimPrefix(m, "done:")] = true
+	}
+	ns := strings.Split(nat, "|")
+	for _, n := range ns {
+		if !model[n] {
+			return false
+		}
+	}
+	if !nondet && len(model) != 1 {
+		return false
+	}
+	return true
 }
